@@ -152,6 +152,7 @@ Definition run_C13 (i : term) : term :=
     TL (map (fun a => of_optname (addr_info tab a)) (gzs (gn i 3)))
   else if String.eqb op "maps" then TL []
   else if String.eqb op "conv" then run_conv i
+  else if String.eqb op "realsym" then TL (map (fun q => TS (gs (gn q 1))) (gl (gn i 2)))
   else if String.eqb op "session" then
     TL (map of_sobs (session_run (map elf_of (gl (gn i 1))) (map sev_of (gl (gn i 2)))))
   else if String.eqb op "a2lnm" then
@@ -196,6 +197,10 @@ Definition spec_C13 (i o : term) : bool :=
     forallb (fun ar => spec_addr_info tab (fst ar) (optname_of (snd ar))) (combine addrs (gl o))
   else if String.eqb op "session" then spec_session i o
   else if String.eqb op "conv" then spec_conv_case i o
+  else if String.eqb op "realsym" then
+    (* real tools, real binary: the function reported for the address of main / hot is main / hot at
+       every position of the conversation ("" = an address without symbol, answer not judged) *)
+    strs_eqb (gss o) (map (fun q => gs (gn q 1)) (gl (gn i 2)))
   else if String.eqb op "a2lnm" then
     if gb (gn i 3) then spec_a2l_fixup (shift_syms (gz (gn i 1)) (map sym_of (gl (gn i 2)))) (gz (gn i 4)) (gss (gn i 5)) (gss o)
     else strs_eqb (gss o) (gss (gn i 5))
